@@ -8,6 +8,7 @@
       used}                                        Template.UsedVars()
    against the register semantics RefRun of Globals.tla. *)
 EXTENDS Globals, TLC, Json, SequencesExt
+CONSTANT DriftEvery        \* the model_drift diagnostic looks at the records whose id is a multiple of it
 
 CaseOf(r) == [sup |-> r.sup, ext |-> r.ext, init |-> r.init, refs |-> r.refs]
 UsedSet(r) == {r.used[i] : i \in 1..Len(r.used)}
@@ -106,13 +107,14 @@ Obs == ndJsonDeserialize("obs.ndjson")
 ObsIdx == [i \in 1..Len(Obs) |-> i]
 BadIdx == SelectSeq(ObsIdx, LAMBDA i : ~RecOk(Obs[i]))
 BadSet == {BadIdx[j] : j \in 1..Len(BadIdx)}
-NDriftAsWritten == Len(SelectSeq(ObsIdx, LAMBDA i : ~Predicts(Obs[i], AsWritten)))
-NDriftFixed == Len(SelectSeq(ObsIdx, LAMBDA i : ~Predicts(Obs[i], Fixed)))
+DriftIdx == SelectSeq(ObsIdx, LAMBDA i : Obs[i].id % DriftEvery = 0)
+NDriftAsWritten == Len(SelectSeq(DriftIdx, LAMBDA i : ~Predicts(Obs[i], AsWritten)))
+NDriftFixed == Len(SelectSeq(DriftIdx, LAMBDA i : ~Predicts(Obs[i], Fixed)))
 Init == l = 1 /\ nbad = 0
 Next == l <= Len(Obs) /\ l' = l + 1 /\ nbad' = nbad + (IF l \in BadSet THEN 1 ELSE 0)
 Done == l = Len(Obs) + 1 =>
           /\ nbad = Len(BadIdx)
-          /\ ndJsonSerialize("drift.ndjson", <<[aswritten |-> NDriftAsWritten, fixed |-> NDriftFixed, records |-> Len(Obs)]>>)
+          /\ ndJsonSerialize("drift.ndjson", <<[aswritten |-> NDriftAsWritten, fixed |-> NDriftFixed, records |-> Len(DriftIdx)]>>)
           /\ ndJsonSerialize("bad.ndjson",
                 [j \in 1..Len(BadIdx) |-> [k |-> BadIdx[j], id |-> Obs[BadIdx[j]].id, sig |-> Sig(Obs[BadIdx[j]]), nbad |-> nbad]])
 Consumed == TLCGet("stats").diameter - 1 = Len(Obs)
